@@ -69,6 +69,14 @@ func Inst(a, f N) N {
 }
 func Log(a N) N { return N{"log(" + a.SX + ")", "log(" + a.JS + ")"} }
 
+// DefNE defines (or redefines) o.p as a writable, configurable, NON-enumerable data property; value: o.
+func DefNE(o N, p string, e N) N {
+	return N{"dne(" + o.SX + "," + p + "," + e.SX + ")", "Object.defineProperty(" + o.JS + ", " + strconv.Quote(p) + ", {value: " + e.JS + ", enumerable: false, writable: true, configurable: true})"}
+}
+
+// Val is (0, e): the value of e, never a reference - a call through it has no base object.
+func Val(a N) N { return N{"val(" + a.SX + ")", "(0, " + a.JS + ")"} }
+
 type Prop struct {
 	K string
 	V N
@@ -175,6 +183,40 @@ func Try(b []N, param string, c []N, f []N, hasCatch, hasFin bool) N {
 	}
 	return N{"Y(S(" + joinN(b, nSX, ",") + ")," + hc + "," + param + ",S(" + joinN(c, nSX, ",") + ")," + hf + ",S(" + joinN(f, nSX, ",") + "))", j}
 }
+
+// VarS is `var x = e;` - the declaration of x itself must be listed in the Vars of the enclosing function.
+func VarS(x string, e N) N { return N{"VS(" + x + "," + e.SX + ")", "var " + x + " = " + e.JS + ";"} }
+
+// Block is { ... }
+func Block(b ...N) N { return N{"B(" + joinN(b, nSX, ",") + ")", "{ " + joinN(b, nJS, " ") + " }"} }
+
+// With is with (o) { ... }
+func With(o N, b ...N) N {
+	return N{"WI(" + o.SX + ",S(" + joinN(b, nSX, ",") + "))", "with (" + o.JS + ") { " + joinN(b, nJS, " ") + " }"}
+}
+
+// ForIn is for (x in o) { ... }, or for (var x in o) { ... } when isVar (x must then be in Vars).
+func ForIn(isVar bool, x string, o N, b ...N) N {
+	iv, kw := "0", ""
+	if isVar {
+		iv, kw = "1", "var "
+	}
+	return N{"FI(" + iv + "," + x + "," + o.SX + ",S(" + joinN(b, nSX, ",") + "))", "for (" + kw + x + " in " + o.JS + ") { " + joinN(b, nJS, " ") + " }"}
+}
+
+// Label is l: s
+func Label(l string, s N) N { return N{"LB(" + l + "," + s.SX + ")", l + ": " + s.JS} }
+
+func lbl(l string) string {
+	if l == "" {
+		return "_"
+	}
+	return l
+}
+
+// Break / Continue with an optional label ("" = none)
+func Break(l string) N    { return N{"BR(" + lbl(l) + ")", strings.TrimSpace("break "+l) + ";"} }
+func Continue(l string) N { return N{"CN(" + lbl(l) + ")", strings.TrimSpace("continue "+l) + ";"} }
 
 // Program renders a whole program: (s-expression, JavaScript).
 func Program(vars []string, decls []Decl, body []N, style int) (string, string) {
